@@ -674,6 +674,9 @@ func replayCmd(path string) int {
 	if err != nil {
 		internal("%v", err)
 	}
+	if abs, e := filepath.Abs(path); e == nil {
+		path = abs // the worker runs in a directory of its own
+	}
 	var f core.Failure
 	if err := json.Unmarshal(b, &f); err != nil {
 		internal("%v", err)
